@@ -28,6 +28,9 @@ func TestMain(m *testing.M) {
 	st = vstat.New()
 	code := m.Run()
 	st.Flush()
+	if env19 != nil && env19.dir != "" {
+		os.RemoveAll(env19.dir) // scratch directory of the C19 instances (config files, log files)
+	}
 	os.Exit(code)
 }
 
